@@ -1,4 +1,4 @@
 From Coq Require Import Extraction ExtrOcamlBasic QArith.
 From BCT Require Import Model.Rewire.
 Extraction Language OCaml.
-Extraction "../ocaml/gen/c11_model.ml" run_rewire run_partial run_rbu_swap DInt Qred Z.add.
+Extraction "../ocaml/gen/c11_model.ml" run_rewire run_partial run_precheck run_rbu_swap DInt Qred Z.add.
